@@ -4,6 +4,7 @@ package integration_tests
 // stock http3.Server running the same masquerade handler (the oracle a prober could compare with).
 
 import (
+	"context"
 	"fmt"
 	"net/http"
 	"strings"
@@ -69,6 +70,7 @@ func c01Run(t *testing.T, tr *kit.Trace, cfg c01Cfg, ops []c01Op) {
 		w := e2eNewWorld(tr)
 		tr.Reset(kit.E{"custom": cfg.custom, "burst": cfg.burst, "src": cfg.src})
 		w.authDelay = cfg.authDelay
+		w.udpEcho = true
 		scfg := &server.Config{DisableUDP: cfg.disableUDP}
 		var masq http.Handler = http.NotFoundHandler()
 		if cfg.custom {
@@ -94,6 +96,17 @@ func c01Run(t *testing.T, tr *kit.Trace, cfg c01Cfg, ops []c01Op) {
 				}
 				raws[conn] = r
 				tr.Ev(kit.E{"ev": "ConnOpen", "conn": conn})
+				// whatever datagram the server sends to this peer (hysteria's HTTP/3 layer does not enable HTTP
+				// datagrams, so nothing else reads them)
+				go func() {
+					for {
+						b, err := r.qc.ReceiveDatagram(context.Background())
+						if err != nil {
+							return
+						}
+						tr.Ev(kit.E{"ev": "DgramRecv", "conn": conn, "n": len(b)})
+					}
+				}()
 				o, err := w.dialRaw(100+conn, osock.LocalAddr())
 				if err != nil {
 					t.Fatalf("dial oracle: %v", err)
